@@ -89,7 +89,9 @@ def impl_run(case):
         out["var"], out["var_exact"] = _num(v)
         try:
             sd = h.stdev()
-            out["sd_ok"] = math.isclose(float(sd) ** 2, float(v), rel_tol=1e-9, abs_tol=1e-9)
+            # relative accuracy only: a tiny positive variance (a rare event) has a tiny positive square root
+            out["sd_ok"] = (math.isclose(float(sd) ** 2, float(v), rel_tol=1e-9, abs_tol=0.0) if float(v) > 0
+                            else abs(float(sd)) <= 1e-9)
         except ValueError:
             out["sd_ok"] = float(v) < 0 and float(v) > -1e-6   # sqrt of a rounding-negative variance
         # the answers do not depend on what was asked of the object before: format() (which passes a float mean to
